@@ -63,5 +63,10 @@ string error_handler (mapping m, int caught) {
     if (sizeof (hv) != 2 || hadd (1, 2) != 3 || sprintf ("%d", 5) != "5")
       VL ("say handler lit=" + sizeof (hv) + " scratch-mismatch");
   }
+  // 64: the handler itself runs into a FRAMELESS error under a recovery point (a command of the user whose notify_fail()
+  // function pointer belongs to a destructed object: safe_call_function_pointer raises before any frame is pushed) right after
+  // a deeper call chain of other objects has used the control-stack slots above; no master apply happens for that error (the
+  // handler is running), so nothing overwrites the stale frame above csp
+  if (hscript & 64) { "/c05/gen/AO"->go (); "/c05/user"->deadcmd (); }
   return "";
 }
